@@ -33,7 +33,7 @@ ASSUMPTIONS = ["recv_time is stamped by the client and excluded from the compari
                "surface as its documented error first if the following call reports ConnectionLost; after a reset, frames "
                "still queued may or may not be delivered before ConnectionLost",
                "the local definitions are the shipped core definitions (types 62, 32, 26, 63; 9000 has no definition)"]
-REQUIRE = {"frames_scripted": 1500, "returned_messages_compared": 400, "documented_errors_checked": 200, "closes_checked": 150}
+REQUIRE = {"frames_delivered_in_two_pieces": 40, "frames_scripted": 1500, "returned_messages_compared": 400, "documented_errors_checked": 200, "closes_checked": 150}
 CASE_TIMEOUT = 60
 
 KINDS = ["good", "good2", "unsub", "unknown", "unknown_unsub", "bigger", "smaller", "badver", "ver0", "signal", "ack", "big_badver", "zero_badver", "unsub_big_badver"]
@@ -103,6 +103,13 @@ def gen_cases(tier, seed):
         close = rng.choice([None, {"how": "fin", "at": None}, {"how": "rst", "at": None}])
         add(kinds, sync=rng.random() < 0.5, ack=rng.random() < 0.3, tc=(i % 5 == 4), changes=sorted(changes), close=close,
             drain_peer=rng.random() < 0.5, sub_all=rng.random() < 0.1, tmode=rng.choice(["pos", "pos", "block", "none", "long", "tiny", "tiny"]))
+    # one frame of the script arrives in two pieces (split inside its header or inside its payload)
+    for i in range(60 if tier == "quick" else 6000):
+        k = rng.randint(1, 5)
+        kinds = [rng.choice(KINDS) for _ in range(k)]
+        close = rng.choice([None, None, {"how": "fin", "at": None}])
+        add(kinds, sync=rng.random() < 0.5, ack=rng.random() < 0.3, tc=(i % 5 == 4), close=close, drain_peer=True,
+            split=[rng.randrange(k), rng.choice([0.02, 0.2, 0.3, 0.5, 0.8, 0.99])], tmode=rng.choice(["long", "long", "pos", "block", "none"]))
     # the peer closing after every byte offset of a frame, for every frame kind
     step = 1 if tier == "thorough" else 4
     for kind in KINDS:
@@ -312,6 +319,7 @@ def run_case(case, tier):
     V, C = res["violations"], res["counters"]
     peer = Peer(tc)
     c = Client(module_id=0, timecode=tc)
+    late = None
     try:
         c.connect(f"127.0.0.1:{peer.port}")
         peer.hs.join(5)
@@ -342,11 +350,38 @@ def run_case(case, tier):
             cut = {"how": close["how"], "partial": off, "partial_hdr_complete": off >= frames[idx]["hlen"], "partial_frame": frames[idx]}
         elif close:
             cut = {"how": close["how"], "partial": 0}
-        if not peer.send(sent):
-            res["inconclusive"] = "peer could not flush its script"
-            return res
+        if case.get("split") and not (close and close.get("at")):
+            # the bytes of one frame reach the client in two pieces with a pause in between (the peer closes nothing
+            # meanwhile): a read that is under way simply goes on when the rest arrives
+            idx, frac = case["split"]
+            idx = min(idx, len(frames) - 1)
+            start = sum(len(f["hex"]) // 2 for f in frames[:idx])
+            flen = len(frames[idx]["hex"]) // 2
+            pos = start + max(1, min(flen - 1, int(frac * flen)))
+            first, rest = sent[:pos], sent[pos:]
+            if not peer.send(first):
+                res["inconclusive"] = "peer could not flush its script"
+                return res
+            C["frames_delivered_in_two_pieces"] = 1
+
+            def _late():
+                time.sleep(0.15)
+                try:
+                    peer.conn.sendall(rest)
+                    if close:
+                        peer.close(close["how"])
+                except OSError:
+                    pass
+
+            late = threading.Thread(target=_late, daemon=True)
+            late.start()
+        else:
+            if not peer.send(sent):
+                res["inconclusive"] = "peer could not flush its script"
+                return res
+            if close:
+                peer.close(close["how"])
         if close:
-            peer.close(close["how"])
             C["closes_checked"] = 1
         flags = {"sync": bool(case["sync"]), "ack": bool(case["ack"])}
         changes = list(case.get("changes") or [])
@@ -454,6 +489,8 @@ def run_case(case, tier):
             res["sample"] = {"case": {k: case[k] for k in case if k != "n"}, "outcomes": [brief(o) for o in outcomes]}
         return res
     finally:
+        if late is not None:
+            late.join(3)
         try:
             c._sock.close()
             c._connected = False
